@@ -67,10 +67,12 @@ def random_jobs(pid, n, seed, length):
     f = FOCUS[pid]
     jobs = []
     for i in range(n):
-        g = gen.Gen(seed * 1000003 + i * 7919 + int(pid[1:]) * 131, ntk=NTK, nfk=NFK, focus=f["weights"], handles=f["handles"])
+        hostile = i % 3 == 2           # a third of the histories use CSV-hostile strings (line breaks, delimiters, quotes)
+        g = gen.Gen(seed * 1000003 + i * 7919 + int(pid[1:]) * 131, ntk=NTK, nfk=NFK, focus=f["weights"], handles=f["handles"],
+                    regex=not hostile)
         kind, ai = traces.CONFIGS[i % 4]
         ops = g.history(g.r.choice(length), p_read=f["p_read"])
-        jobs.append(("r%d" % i, kind, ai, ops, g.battery(), NTK, NFK))
+        jobs.append(("r%d" % i, kind, ai, ops, g.battery(), NTK, NFK, {"theme": "csv-hostile"} if hostile else {}))
     return jobs
 
 
@@ -142,6 +144,17 @@ def failure_tags(tr, err):
     return tags
 
 
+def op_hist(recorded):
+    """how often each operation kind was executed and judged (vacuity guard: an operation kind that never
+    occurs means the clauses about it were never exercised)"""
+    h = {}
+    for t in recorded:
+        for e in t["events"]:
+            k = e["a"]["op"] + ("@handle" if e["a"].get("via") == "handle" else "") + ("!raised" if e["exc"] else "")
+            h[k] = h.get(k, 0) + 1
+    return dict(sorted(h.items()))
+
+
 def run(pid, level="model_checking"):
     rep = common.Report(pid, level)
     common.use_repo()
@@ -154,8 +167,8 @@ def run(pid, level="model_checking"):
     jobs = random_jobs(pid, n_rand, rep.seed, [10, 20, 30, 45] if not thorough else [15, 30, 50, 80])
     # ---- spec -> code: TLC paths
     bat = gen.Gen(rep.seed + 5, ntk=NTK, nfk=NFK).battery(4)
-    alpha = {"C03": "update"}.get(pid, "index")
-    depth = (4 if thorough else 3) if alpha == "index" else 2
+    alpha = {"C03": "update", "C02": "remove", "C10": "meas", "C11": "fail"}.get(pid, "index")
+    depth = {"index": 4 if thorough else 3, "update": 2, "remove": 3 if thorough else 2, "meas": 3 if thorough else 2, "fail": 3}[alpha]
     paths, rp = export_paths(alpha, depth, 4)
     if len(paths) > (40000 if thorough else 2500):
         rnd = random.Random(rep.seed)
@@ -199,6 +212,7 @@ def run(pid, level="model_checking"):
         "traces_accepted": ok,
         "failures_owned_by_other_properties": cut,
         "tlc_paths": len(paths), "tlc_simulated": len(sims), "random_histories": n_rand, "events_judged": n_events,
+        "operations_executed_by_kind": op_hist(recorded),
         "design_states": st, "design_transitions": tr_, "checker_cmd": cmd,
     }
     rep.assumptions = ["values are ranks mapped order-isomorphically to real values by the plain theme (verified at start-up)",
